@@ -2108,6 +2108,15 @@ impl Property for C17 {
         opts.angle = flags & 16 != 0;
         opts.dup = [vcheck::opts::Dup::Error, vcheck::opts::Dup::First, vcheck::opts::Dup::Last][(flags >> 5) as usize % 3];
         let text = String::from_utf8_lossy(b.take(400)).into_owned();
+        // Lines of 100 display columns or more are left to the enumerated and random families
+        // (`long-lines`, the cube, `two-windows-far-column`): there annotate-snippets trims the
+        // line itself, by rules of its own (margins, `...` markers placed between wide and
+        // zero-width characters) that the layout parser follows for the shapes those families
+        // produce, but not for arbitrary byte soup - six artifacts of this tier were all of that
+        // kind (DESIGN.md section 3, C17 Corr.).
+        if text.split('\n').any(|l| sw(l) >= 100) {
+            return None;
+        }
         let (entry, _) = safe_entry(&text, entry);
         let c = Case { text, target, entry, opts };
         let nt = classify(&c, &Tally::default());
